@@ -152,6 +152,45 @@ def _init_text(case):
 
 
 # ---------------------------------------------------------------------------
+# extraction: vlib.zoneutil's per-record functions, memoised per object for the duration of a
+# case (names and rdatas are immutable; the memo keeps the object alive so ids stay unique)
+
+_memo = {}
+
+
+def _rk(rd, origin):
+    e = _memo.get(id(rd))
+    if e is None or e[0] is not rd:
+        e = (rd, ZU.rdata_key(rd, origin))
+        _memo[id(rd)] = e
+    return e[1]
+
+
+def _ok(name, origin):
+    e = _memo.get(id(name))
+    if e is None or e[0] is not name:
+        e = (name, ZU.owner_key(name, origin))
+        _memo[id(name)] = e
+    return e[1]
+
+
+def _x_rdataset(rds, origin):
+    return (int(rds.ttl), frozenset(_rk(rd, origin) for rd in rds))
+
+
+def _x_pairs(pairs, origin, strict=False):
+    """[(name, rdataset)] -> the shape of vlib.zoneutil.extract()"""
+    out = {}
+    for name, rds in pairs:
+        node = out.setdefault(_ok(name, origin), {})
+        tk = (int(rds.rdtype), int(rds.covers))
+        if strict and tk in node:
+            raise AssertionError(f"two rdatasets of type {tk} at {name}")
+        node[tk] = _x_rdataset(rds, origin)
+    return out
+
+
+# ---------------------------------------------------------------------------
 # one zone flavour
 
 
@@ -219,7 +258,7 @@ class _Z:
         return rd
 
     def rdata_key(self, tname, i):
-        return ZU.rdata_key(self.rdata(tname, i), self.origin)
+        return _rk(self.rdata(tname, i), self.origin)
 
     def rdataset(self, op, ttl):
         import dns.rdataset
@@ -259,23 +298,29 @@ class _Z:
         return [v.id for v in self.zone._versions]
 
     def node_names(self):
-        return set(ZU.owner_key(n, self.origin) for n in self.zone.keys())
+        return set(_ok(n, self.origin) for n in self.zone.keys())
 
     def check_published(self, want, where):
-        """content (with TTLs), node names, key relativity, no empty nodes"""
-        got = ZU.extract(self.zone, self.origin)
-        if got != want:
-            raise Violation(
-                "content", f"{self.label} {where}: zone content differs from the model: {ZU.diff(got, want)} (zone vs model)",
-                f"{self.kind}:{where.split(' ')[0]}",
-            )
+        """node key relativity, no empty nodes, node names, content (with TTLs)"""
         names = set()
         for n, node in self.zone.items():
             if n.is_absolute() == self.rel:
                 raise Violation("content", f"{self.label} {where}: node key {n!r} has the wrong relativity", f"{self.kind}:relativity")
             if len(node) == 0 or any(len(rds) == 0 for rds in node):
                 raise Violation("content", f"{self.label} {where}: node {n} without records is present", f"{self.kind}:empty-node")
-            names.add(ZU.owner_key(n, self.origin))
+            k = _ok(n, self.origin)
+            if k in names:
+                raise Violation("content", f"{self.label} {where}: two nodes for owner {n}", f"{self.kind}:duplicate-node")
+            names.add(k)
+        try:
+            got = _x_pairs(self.zone.iterate_rdatasets(), self.origin, strict=True)
+        except AssertionError as e:
+            raise Violation("content", f"{self.label} {where}: {e}", f"{self.kind}:duplicate-rdataset")
+        if got != want:
+            raise Violation(
+                "content", f"{self.label} {where}: zone content differs from the model: {ZU.diff(got, want)} (zone vs model)",
+                f"{self.kind}:{where.split(' ')[0]}",
+            )
         if names != set(want):
             raise Violation("content", f"{self.label} {where}: node names {sorted(names)} != model {sorted(want)}", f"{self.kind}:names")
 
@@ -386,7 +431,7 @@ def _would_remove_last(mt, op, keyof):
 def _norm_node(node, origin):
     if node is None:
         return None
-    return {(int(r.rdtype), int(r.covers)): ZU.extract_rdataset(r, origin) for r in node.rdatasets}
+    return {(int(r.rdtype), int(r.covers)): _x_rdataset(r, origin) for r in node.rdatasets}
 
 
 def _extra_rdata():
@@ -454,7 +499,7 @@ def _real_call(Z, txn, op):
         else:
             args = [n, Z.rdtype_arg(rdtype, op["textual"]), Z.rdtype_arg(covers, op["textual"])]
         fn = txn.get
-        post = lambda r: None if r is None else ZU.extract_rdataset(r, Z.origin)  # noqa: E731
+        post = lambda r: None if r is None else _x_rdataset(r, Z.origin)  # noqa: E731
     elif name == "get_node":
         args = [Z.name(op["name"], op["spell"] & 1, op["upper"])]
         fn = txn.get_node
@@ -466,7 +511,7 @@ def _real_call(Z, txn, op):
     elif name == "iterate_names":
         args = []
         fn = txn.iterate_names
-        post = lambda r: set(ZU.owner_key(n, Z.origin) for n in r)  # noqa: E731
+        post = lambda r: set(_ok(n, Z.origin) for n in r)  # noqa: E731
     elif name == "iterate_rdatasets":
         args = []
         fn = txn.iterate_rdatasets if op["spell"] & 1 else txn.__iter__
@@ -491,10 +536,7 @@ def _real_call(Z, txn, op):
 
 
 def _norm_iter(it, origin):
-    out = {}
-    for n, rds in it:
-        out.setdefault(ZU.owner_key(n, origin), {})[(int(rds.rdtype), int(rds.covers))] = ZU.extract_rdataset(rds, origin)
-    return out
+    return _x_pairs(it, origin)
 
 
 def _compare(Z, where, op, want, got, exc=None):
@@ -585,6 +627,7 @@ def _sweep(Z, txn, want_exc, where, skip=(), mutators_only=False, soa_present=Tr
 def run(case):
     import dns.transaction
 
+    _memo.clear()
     classes = set()
     flags = {"abs_in_rel": False, "abort_with_writes": False, "recreated": False, "cname_swap": False}
     rdc = {True: {}, False: {}}
@@ -614,7 +657,7 @@ def run(case):
             k = kcache[(tname, i)] = keyz.rdata_key(tname, i)
         return k
 
-    model = ZM.ZoneModel(ORIGIN_KEY, ZU.extract(zones[0].zone, zones[0].origin))
+    model = ZM.ZoneModel(ORIGIN_KEY, _x_pairs(zones[0].zone.iterate_rdatasets(), zones[0].origin, strict=True))
     for Z in zones:
         Z.check_published(model.content, "load")
 
@@ -709,7 +752,7 @@ def run(case):
                 else:
                     raise Violation("read-your-writes", f"{Z.label} {where}: rdataset returned by get() accepted update_ttl", "get-mutable")
             if state is not None and (full or i == len(steps) - 1):
-                got = ZU.extract_txn(txn, Z.origin)
+                got = _x_pairs(txn.iterate_rdatasets(), Z.origin)
                 if got != state:
                     raise Violation(
                         "read-your-writes",
@@ -788,7 +831,7 @@ def run(case):
                     txn.check_delete_rdataset(hook)
                     txn.check_delete_name(hook)
                     real_ops(Z, txn, steps[:-1], where, False)
-                    pre = ZU.extract_txn(txn, Z.origin)
+                    pre = _x_pairs(txn.iterate_rdatasets(), Z.origin)
                     armed[0] = True
                     try:
                         _real_call(Z, txn, last_op)
@@ -796,7 +839,7 @@ def run(case):
                         if e is not inj:
                             raise Violation("atomicity", f"{Z.label} {where}: a different exception object came out of the operation", "exc-identity")
                         fired = True
-                        post = ZU.extract_txn(txn, Z.origin)
+                        post = _x_pairs(txn.iterate_rdatasets(), Z.origin)
                         if post != pre:
                             raise Violation("atomicity", f"{Z.label} {where}: vetoed {last_op} changed the transaction: {ZU.diff(post, pre)}", f"{Z.kind}:veto:{last_op['op']}")
                     armed[0] = False
@@ -900,7 +943,7 @@ def run(case):
             where = f"txn{ti} reader"
             r = Z.zone.reader()
             try:
-                got = ZU.extract_txn(r, Z.origin)
+                got = _x_pairs(r.iterate_rdatasets(), Z.origin)
                 if got != model.content:
                     raise Violation("read-your-writes", f"{Z.label} {where}: reader content differs from the committed model: {ZU.diff(got, model.content)}", f"{Z.kind}:reader")
                 if r.changed():
